@@ -777,6 +777,17 @@ int initgroups(const char *user, gid_t g)
   { gid_t l[1]; l[0] = g; (void) user; return setgroups(1, l); }
 }
 
+/* ---------------------------------------------------------------- who invoked the program
+ * world  VERIF_GETUID=<n>  getuid() answers n (qmail-queue records the invoking uid; the sandbox has only uid 0 and a set-uid
+ *        program would not load this library) */
+#include <sys/syscall.h>
+uid_t getuid(void)
+{
+  const char *v = getenv("VERIF_GETUID");
+  if (v && *v) return (uid_t) strtoul(v, 0, 10);
+  return (uid_t) syscall(SYS_getuid);
+}
+
 /* ---------------------------------------------------------------- clock */
 time_t time(time_t *t)
 {
